@@ -109,7 +109,22 @@ def permitted_end(ex, S, T, p):
     if k == 'ack':
         return isin(ex, p.v['id'], a['ids'])
     if k == 'seek':
-        return Or(*[And(c, ex.eq(s.v['id'], p.v['subscription_id'])) for c, s in target_sub(S, ex, a)])
+        on_target = Or(*[And(c, ex.eq(s.v['id'], p.v['subscription_id'])) for c, s in target_sub(S, ex, a)])
+        if 'time' in a:
+            # a seek to a time may end only what was published at or before that time
+            return And(on_target, p.v['published_at'] <= a['time'])
+        if 'snap_name' in a or 'snap_id' in a:
+            # a seek to a snapshot may end only what the snapshot records as acknowledged
+            covered = []
+            for sn in S.pre['Snapshot']:
+                c = sn.exists
+                if a.get('snap_id') is not None:
+                    c = And(c, ex.eq(sn.v['id'], a['snap_id']))
+                if not (isinstance(a.get('snap_name'), str) and a['snap_name'] == ''):
+                    c = And(c, ex.eq(sn.v['name'], a['snap_name']))
+                covered.append(And(c, Or(p.v['published_at'] < sn.v['acked_messages_before'], isin(ex, p.v['message_id'], list(sn.v['acked_message_ids'])))))
+            return And(on_target, Or(*covered))
+        return on_target
     if k == 'nack':
         return And(isin(ex, p.v['id'], a['ids']), dl_due(S, ex, p))
     if k == 'pull':
